@@ -4,7 +4,9 @@
   vehicle-level un-plan …") is FALSE of the code as modelled: two counterexamples below, each a
   listed finding replayed on the real code on every run. What is proved: the invariant holds along
   every history over the sub-alphabet `GoodOp` (operations on root units, plan-all units executed
-  with exactly their members, nested un-plans never rejected), whatever the feasibility bits are.
+  with exactly their members), whatever the feasibility bits are — since the repair of E16 INCLUDING group un-plans whose
+  member un-plans are rejected in any pattern (the un-plan of a plan-all unit is all-or-nothing; before the repair the
+  sub-alphabet had to exclude rejected nested un-plans).
 -/
 import NR.Coll
 import NR.Proofs.Coll
